@@ -90,6 +90,12 @@ def constructors(ctx, n):
         ctx.case(("c", cls, tuple(ts), tuple(sup) if sup is not None else None, sc), inp if k % 97 == 0 else None)
         ep = None if sup is None else iset([a for a, _ in sup], [b for _, b in sup], sc)
         t = farr(ts, sc)
+        if k % 6 == 1 and len(ts):
+            # the timestamps handed over as a TsIndex (the index of another object, sliced / re-ordered as given here)
+            base = nap.Ts(np.sort(t)).index
+            order = [sorted(range(len(ts)), key=lambda i: ts[i]).index(i) for i in range(len(ts))] if len(set(ts)) == len(ts) else list(range(len(ts)))[::-1]
+            t = base[np.array(order)]
+            inp = dict(inp, t_given_as="TsIndex[%s]" % order)
         d = np.arange(len(ts), dtype=float)
         try:
             if cls == 0:
